@@ -16,6 +16,9 @@ func init() {
 	rv := "internal/native/riscv/"
 	la := "internal/native/loong64/"
 	register(&Property{ID: "C17", Run: runC17, Mutants: []Mutant{
+		{Name: "loong64 two rows exchange their opcode values (own decoder still round-trips)", File: la + "a_out.go", Old: "AADD_D:        {mask: 0xffff8000, value: 0x00108000, op: AADD_D, fmt: OpFormatType_3R},", New: "AADD_D:        {mask: 0xffff8000, value: 0x00100000, op: AADD_D, fmt: OpFormatType_3R},", Expect: "loong64-reference-opcode :: row AADD_D"},
+		{Name: "riscv XOR gets OR's funct3 moved by one (own decoder still round-trips)", File: rv + "opcode.go", Old: "AXOR:    {Opcode: _OpBase_OP, ArgMarks: _ARG_RType, Funct3: 0b_100, Funct7: 0b_000_0000},", New: "AXOR:    {Opcode: _OpBase_OP, ArgMarks: _ARG_RType, Funct3: 0b_100, Funct7: 0b_000_0100},", Expect: "riscv-reference-opcode :: row AXOR"},
+		{Name: "riscv FLT.S loses its funct3", File: rv + "opcode.go", Old: "AFLT_S:     {Opcode: _OpBase_OP_FP, ArgMarks: _ARG_RType, Funct3: 0b_001, Funct7: 0b_101_0000},", New: "AFLT_S:     {Opcode: _OpBase_OP_FP, ArgMarks: _ARG_RType, Funct7: 0b_101_0000},", Expect: "riscv-reference-opcode :: row AFLT_S"},
 		{Name: "riscv S-type low immediate shifted to bit 8", File: rv + "encode.go", Old: "(imm&0b_1_1111)<<7 | uint32(ctx.Opcode)", New: "(imm&0b_1_1111)<<8 | uint32(ctx.Opcode)", Expect: "riscv-placement :: S"},
 		{Name: "riscv B-type imm[11] taken from imm[10]", File: rv + "encode.go", Old: "((imm>>11)&0x1)<<7", New: "((imm>>10)&0x1)<<7", Expect: "riscv-placement :: B"},
 		{Name: "riscv J-type imm[19:12] misplaced", File: rv + "encode.go", Old: "((imm>>12)&0xff)<<12", New: "((imm>>12)&0xff)<<11", Expect: "riscv-placement :: J"},
@@ -91,7 +94,8 @@ func runC17(c *Ctx) {
 		"RISC-V: (1) each format encoder (R, R4, I, S, B, U, J) places every operand bit where the base ISA layout prescribes; (2) each format decoder extracts every operand bit from the position the encoder wrote it to and sign-extends immediates from their top encoded bit; " +
 		"(3) encode-key injectivity: two real (non-pseudo) table rows of one format that agree on every table field that format's encoder reads produce identical machine code; decode-key sufficiency likewise for the fields the decoder compares. " +
 		"LoongArch: (4) for every table row the operand bits its format writes are disjoint from the row's opcode mask and from each other, and value has no bit outside mask; (5) each format's decoder arm reads every operand bit from where the encoder arm wrote it, with the signedness the format name states. " +
-		"NOT decided: opcode values against an independent ISA table, immediate range checks, pseudo-instruction expansion, ARM64 (encoder not implemented) and x86-64 (table-driven port of the Go assembler)."
+		"Independent reference: (6) every RISC-V and LoongArch table row that has a same-named row in the decode tables of golang.org/x/arch's riscv64asm / loong64asm (vendored in the pre-installed Go 1.26 tree, generated from the ISA manuals, read as data) fixes the same opcode bits under the reference's mask; (7) function codes the reference fixes inside an operand field are provided by the row. " +
+		"NOT decided: rows without a same-named reference row (listed in the notes), operand field positions against the reference, immediate range checks, pseudo-instruction expansion, ARM64 (encoder not implemented) and x86-64 (table-driven port of the Go assembler)."
 	c.Trusted = []string{"go/packages, go/types (x/tools v0.29.0)", "RISC-V base instruction format layouts (unprivileged ISA spec, ch. 2.2/2.3)", "bit-provenance engine (bitprov.go)"}
 	c.Exhaust = true
 	p := c.Load(LoadOpt{Light: true}, "./internal/native/riscv", "./internal/native/loong64")
@@ -101,6 +105,7 @@ func runC17(c *Ctx) {
 	if la := p.MustPkg("loong64-operands-vs-mask", "internal/native/loong64"); la != nil {
 		c17Loong(c, p, la)
 	}
+	c17Reference(c, p, p.Pkg("internal/native/riscv"), p.Pkg("internal/native/loong64"))
 }
 
 // ---------- RISC-V
